@@ -14,10 +14,31 @@ struct For { forest* f = nullptr; FSpec fs; int dom; bool alive = true; unsigned
 struct Edg { std::unique_ptr<dd_edge> e; int forest; Table t; };
 struct Itr { std::unique_ptr<dd_edge::iterator> it; int forest; };
 
+struct OpRec { const operation* ptr; unsigned id; std::vector<int> forests; std::string what; };
 struct State {
     std::vector<Dom> D; std::vector<For> F; std::vector<Edg> E; std::vector<Itr> I;
     std::set<unsigned> fids;
+    std::vector<OpRec> ops;     // operation objects the harness has seen built, with the forests they span
 };
+
+// "destroys the operations ... that mention it": after forest fi died, no operation object that spanned it may still sit in the
+// library's operation registry (public: operation::getOpListSize / getOpWithID).  Called before anything new is built.
+static void checkOpsGone(Ctx& c, State& S, const std::vector<int>& dead, const char* when) {
+    for (size_t k = 0; k < S.ops.size();) {
+        bool hit = false; for (int fi : S.ops[k].forests) for (int d : dead) if (fi == d) hit = true;
+        if (!hit) { k++; continue; }
+        const operation* now = S.ops[k].id < operation::getOpListSize() ? operation::getOpWithID(S.ops[k].id) : nullptr;
+        if (now && now == S.ops[k].ptr)
+            throw Violation("C17:operation-survived-its-forest", std::string(when) + ": operation " + S.ops[k].what + " (id " + tos(S.ops[k].id) + ") is still registered although a forest it spans was destroyed");
+        c.count("operations_checked_gone");
+        S.ops[k] = S.ops.back(); S.ops.pop_back();
+    }
+}
+static void noteOp(State& S, const operation* op, std::vector<int> forests, const std::string& what) {
+    if (!op) return;
+    for (auto& o : S.ops) if (o.ptr == op && o.id == op->getID()) return;
+    S.ops.push_back({op, op->getID(), forests, what});
+}
 
 static void checkEdge(Ctx& c, State& S, Edg& x, const char* when) {
     For& fo = S.F[size_t(x.forest)];
@@ -109,7 +130,9 @@ static void run(Ctx& c) {
                 if (fa.fs.kindStr().substr(0, fa.fs.kindStr().rfind('/')) != fb.fs.kindStr().substr(0, fb.fs.kindStr().rfind('/'))) {
                     // different value kinds: copy a into b's forest instead (COPY spans both forests)
                     if (fa.fs.isEVP() && !fb.fs.isEVP()) continue;   // EV+ infinity into MT is unspecified
-                    Edg x; x.forest = S.E[b].forest; x.e.reset(new dd_edge(fb.f)); apply(COPY, *S.E[a].e, *x.e);
+                    Edg x; x.forest = S.E[b].forest; x.e.reset(new dd_edge(fb.f));
+                    noteOp(S, COPY().build(fa.f, fb.f), {S.E[a].forest, S.E[b].forest}, "COPY " + fa.fs.kindStr() + "->" + fb.fs.kindStr());
+                    apply(COPY, *S.E[a].e, *x.e);
                     x.t.resize(S.E[a].t.size());
                     for (size_t i = 0; i < x.t.size(); i++) { const Val& v = S.E[a].t[i]; x.t[i] = v.isInf() ? v : (fb.fs.isBool() ? Val::b(v.truthy()) : fb.fs.isInt() ? Val::in(v.k == Val::R ? long(v.r) : v.i) : Val::re(v.k == Val::R ? v.r : double(v.i))); }
                     if (fa.fs.isReal() && fb.fs.isInt()) continue;   // truncation at representation boundaries: covered by C10
@@ -121,6 +144,7 @@ static void run(Ctx& c) {
                 std::vector<int> rf; for (int fi : liveF) { For& fo = S.F[size_t(fi)]; if (fo.dom == fa.dom && fo.fs.kindStr().substr(0, fo.fs.kindStr().rfind('/')) == fa.fs.kindStr().substr(0, fa.fs.kindStr().rfind('/'))) rf.push_back(fi); }
                 int fc = rf[r.below(rf.size())]; For& fo = S.F[size_t(fc)];
                 Edg x; x.forest = fc; x.e.reset(new dd_edge(fo.f));
+                noteOp(S, binFactory(op).build(fa.f, fb.f, fo.f), {S.E[a].forest, S.E[b].forest, fc}, std::string(binName(op)) + " " + fa.fs.kindStr() + "," + fb.fs.kindStr() + "->" + fo.fs.kindStr());
                 apply(binFactory(op), *S.E[a].e, *S.E[b].e, *x.e);
                 x.t = modelBin(op, S.E[a].t, S.E[b].t, fa.fs.isReal()).out;
                 expectTable(*S.D[size_t(fo.dom)].w, *x.e, x.t, tolFor(fo.fs), "C17:operation-wrong-value:" + fo.fs.kindStr(), std::string(binName(op)) + " across forests");
@@ -148,7 +172,25 @@ static void run(Ctx& c) {
                 forest::destroy(fo.f);
                 fo.alive = false; c.count("forests_destroyed"); trace += "F- ";
                 if (forest::getForestWithID(fo.fid) != nullptr) throw Violation("C17:destroyed-forest-still-registered", "getForestWithID still returns a destroyed forest");
+                checkOpsGone(c, S, {fi}, "after destroying a forest");
                 checkAll(c, S, "after destroying a forest");
+                // "such edges become inert": an orphan attached to a surviving forest is a fresh edge there (the constant default),
+                // and releasing it again takes nothing from that forest
+                for (auto& x : S.E) if (x.forest == fi && r.chance(1, 2)) {
+                    std::vector<int> lf; for (int q : liveF) if (q != fi) lf.push_back(q);
+                    if (lf.empty()) break;
+                    int ti = lf[r.below(lf.size())]; For& tgt = S.F[size_t(ti)];
+                    phase("reattach-orphan-edge");
+                    x.e->attach(tgt.f);
+                    if (x.e->getForest() != tgt.f) throw Violation("C17:orphan-reattach:not-attached", "attach() of an orphaned edge to a live forest did not attach it");
+                    if (x.e->getNode() != 0) throw Violation("C17:orphan-reattach:keeps-old-node", "an edge orphaned by forest::destroy, attached to another forest (" + tgt.fs.kindStr() + "), still carries node handle " + tos(x.e->getNode()) + " of the dead forest");
+                    try { auditForest(tgt.f, tgt.fs.kindStr(), c, "C17"); }
+                    catch (Violation& v) { throw Violation(v.key, "while an orphaned edge is attached to a surviving forest: " + v.detail + " [" + tgt.fs.str() + "]"); }
+                    x.e->attach(nullptr);   // and let it go again: nothing may be taken from the surviving forest
+                    c.count("orphans_reattached");
+                    checkAll(c, S, "after re-attaching an orphaned edge");
+                    break;
+                }
                 // using an orphan in an operation must raise an error, not touch freed memory
                 for (auto& x : S.E) if (x.forest == fi) {
                     phase("use-orphan-edge");
@@ -171,6 +213,7 @@ static void run(Ctx& c) {
                 S.D[size_t(di)].alive = false; S.D[size_t(di)].w->dom = nullptr;
                 for (auto& fo : S.F) if (fo.dom == di && fo.alive) { fo.alive = false; if (forest::getForestWithID(fo.fid) != nullptr) throw Violation("C17:forest-survived-its-domain", "forest still registered after its domain was destroyed"); }
                 c.count("domains_destroyed"); trace += "D- ";
+                { std::vector<int> dead; for (size_t q = 0; q < S.F.size(); q++) if (S.F[q].dom == di) dead.push_back(int(q)); checkOpsGone(c, S, dead, "after destroying a domain"); }
                 checkAll(c, S, "after destroying a domain");
                 continue;
             }
